@@ -264,7 +264,7 @@ func fullC12(nOnce int) *c12u {
 // genC12 draws a use tree.
 func genC12(t *kernel.Tape, ext map[*Node]*nodeExt, budget *int, depth int, nOnce int) *Node {
 	*budget--
-	inner := []string{"seq", "seq", "el", "ifelse", "callblock", "oncebody", "callnoblock", "join"}
+	inner := []string{"seq", "seq", "el", "ifelse", "callblock", "oncebody", "callnoblock", "join", "hwnonce"}
 	if depth >= 4 || *budget <= 0 || t.Chance(3, 6, "leaf") {
 		return genUseLeaf(t, ext, nOnce)
 	}
@@ -287,6 +287,8 @@ func genC12(t *kernel.Tape, ext map[*Node]*nodeExt, budget *int, depth int, nOnc
 		return &Node{K: "callblock", Kids: []*Node{callee, sub()}}
 	case "callnoblock":
 		return &Node{K: "callnoblock", Kids: []*Node{sub()}}
+	case "hwnonce": // a hand-written layer that renders its subtree with a nonce of its own
+		return &Node{K: "hwnonce", Kids: []*Node{sub()}}
 	case "oncebody":
 		h := t.Choose(nOnce, "handle")
 		return &Node{K: "oncebody", N: h, Kids: []*Node{{K: "seq", Kids: []*Node{{K: "block", S: fmt.Sprintf("OB-h%d", h)}, sub()}}}}
@@ -511,6 +513,7 @@ func checkC12(rc *kernel.RunCtx, k *kernel.Kernel, who string, doc string, uses 
 }
 
 type c12ctx struct {
+	cancelAt int // middleware mode: cancel the request context when this fault point is reached (-1: never)
 	name   string
 	specs  []*Node
 	fault  Fault
@@ -573,7 +576,10 @@ func c12World(rc *kernel.RunCtx) {
 	faultsLeft := t.Choose(2, "nfaults")
 	var ctxs []*c12ctx
 	for i := 0; i < nctx; i++ {
-		c := &c12ctx{name: fmt.Sprintf("ctx#%d", i), nonce: t.Chance(1, 3, "nonce"), viaMW: middleware}
+		c := &c12ctx{name: fmt.Sprintf("ctx#%d", i), nonce: t.Chance(1, 3, "nonce"), viaMW: middleware, cancelAt: -1}
+		if middleware && t.Chance(1, 4, "client-leaves-mid-render") {
+			c.cancelAt = t.Choose(5, "cancel-at")
+		}
 		nr := t.Range(1, 3, "renders-in-context")
 		if middleware {
 			nr = 1
@@ -606,7 +612,10 @@ func c12World(rc *kernel.RunCtx) {
 				rec := newRecorder()
 				pageMW := templ.NewCSSMiddleware(templ.Handler(comp), regClasses...)
 				pageMW.CSSHandler = mw.CSSHandler // the handler state (registered classes) is the shared one
-				pageMW.ServeHTTP(parkRecorder{rec, park}, httptest.NewRequest(http.MethodGet, "/page", nil))
+				rctx, cancel := context.WithCancel(context.Background())
+				defer cancel()
+				c.env.Cancel, c.env.CancelAt = cancel, c.cancelAt
+				pageMW.ServeHTTP(parkRecorder{rec, park}, httptest.NewRequest(http.MethodGet, "/page", nil).WithContext(rctx))
 				c.w.got, c.status = rec.body.Bytes(), rec.status
 				return
 			}
@@ -660,6 +669,11 @@ func c12World(rc *kernel.RunCtx) {
 			rc.Fail("C12/render-error", "%s: %v", who, c.err)
 			continue
 		}
+		if c.viaMW && c.cancelAt >= 0 && c.status != http.StatusOK {
+			// the client went away mid-render: the request failed, which is all that is required of it
+			k.Count("fault_request_context_cancelled_mid_render", 1)
+			continue
+		}
 		if c.viaMW && c.status != http.StatusOK {
 			rc.Fail("C12/middleware-page-failed", "%s: status %d", who, c.status)
 			continue
@@ -681,6 +695,34 @@ func c12World(rc *kernel.RunCtx) {
 			}
 		}
 		k.Count("probe_middleware_run", 1)
+	}
+	// items rendered directly with a plain context (no generated component around them): every
+	// such render is a context of its own
+	if !rc.Failed() {
+		for round := 0; round < 2; round++ {
+			for _, sc := range u.Scripts {
+				var b strings.Builder
+				if err := sc.Render(context.Background(), &b); err != nil {
+					rc.Fail("C12/render-error", "script component %s with a plain context: %v", sc.Name, err)
+				}
+				d := b.String()
+				if sc.Function != "" && (len(allIndex(d, sc.Function)) != 1 || strings.Index(d, sc.Function) > strings.Index(d, sc.CallInline+"</script>")) {
+					rc.Fail("C12/script-used-undefined", "script component %s rendered on its own with a plain context (round %d): %q", sc.Name, round, kernel.Short(d, 300))
+				}
+			}
+			for _, c := range u.Css {
+				var b strings.Builder
+				if err := templ.RenderCSSItems(context.Background(), &b, c); err != nil || len(allIndex(b.String(), string(c.Class))) != 1 {
+					rc.Fail("C12/css-used-undefined", "RenderCSSItems(%s) with a plain context (round %d): err=%v out=%q", c.ID, round, err, kernel.Short(b.String(), 200))
+				}
+			}
+			var b strings.Builder
+			h := templ.NewOnceHandle()
+			if err := h.Once().Render(templ.WithChildren(context.Background(), templ.Raw("<once-x/>")), &b); err != nil || b.String() != "<once-x/>" {
+				rc.Fail("C12/once-content-missing", "a fresh once handle rendered with a plain context (round %d): err=%v out=%q", round, err, b.String())
+			}
+			k.Count("bare_context_renders", int64(len(u.Scripts)+len(u.Css)+1))
+		}
 	}
 	k.Count("uses_checked", int64(totalUses))
 	rc.Finish(k)
